@@ -367,6 +367,14 @@ class P:
                         self.take()
                         args.append(self.expr())
                 self.take("p", ")")
+                if self.at("kw", "FILTER") and self.at("p", "(", 1):
+                    # aggregate FILTER(WHERE criterion): one criterion, read with the shared grammar
+                    self.take()
+                    self.take("p", "(")
+                    self.take("kw", "WHERE")
+                    c = self.expr()
+                    self.take("p", ")")
+                    return ("func_filter", t.val, args, c)
                 return ("func", t.val, args)
             name = t.val
             while self.at("p", "."):
@@ -463,6 +471,8 @@ def ev_ast(e, salt):
         return {"AND": a and b, "OR": a or b, "XOR": a != b}[e[1]]
     if k == "func":
         return H("func", e[1].upper(), tuple(to_num(ev_ast(a, salt)) for a in e[2]))
+    if k == "func_filter":
+        return H("func", e[1].upper(), tuple(to_num(ev_ast(a, salt)) for a in e[2]), "filter", to_bool(ev_ast(e[3], salt)))
     if k == "case":
         for c, v in e[1]:
             if to_bool(ev_ast(c, salt)):
@@ -551,8 +561,12 @@ def ev_spec(s, salt):
         r = H("isnull", to_num(ev_spec(s["t"], salt))).numerator % 2 == 0
         return (not r) if k == "notnull" else r
     if k == "func":
-        if s["special"] or s["extract_from"] or s["filter"] or s["over"] or s["distinct"] or s["schema"]:
+        if s["special"] or s["extract_from"] or s["over"] or s["distinct"] or s["schema"]:
             raise Undefined("function with special clauses")
+        if s["filter"]:
+            # the filters of an aggregate are a conjunction (Criterion.all of the filter list)
+            return H("func", s["name"].upper(), tuple(to_num(ev_spec(a, salt)) for a in s["args"]), "filter",
+                     to_bool(ev_spec(s["filter"], salt)))
         return H("func", s["name"].upper(), tuple(to_num(ev_spec(a, salt)) for a in s["args"]))
     if k == "case":
         for c, v in s["whens"]:
